@@ -150,3 +150,49 @@ func verifC10FailedStart() {
 	vObserve("starts", int64(pp.starts))
 	vWitness("c10failedstart-end")
 }
+
+// c10FailingSource is the real Triangle source whose StartRun (the last step of Start, the
+// one that talks to the driver for a Lancero source) fails the first `fails` times.
+type c10FailingSource struct {
+	*TriangleSource
+	fails int
+}
+
+func (s *c10FailingSource) StartRun() error {
+	if s.fails > 0 {
+		s.fails--
+		return fmt.Errorf("failed to start (driver problem)")
+	}
+	return s.TriangleSource.StartRun()
+}
+
+// verifC10FailedStartRun: Start fails in its last step (after the run-done barrier was
+// armed): the source is inactive, nobody waiting for the run to end is left blocked, and the
+// same object then goes through complete Start/Stop cycles.
+func verifC10FailedStartRun() {
+	vClockConcrete()
+	vStub("(*github.com/usnistgov/dastard.AnySource).ProcessSegments")
+	PubRecordsChan = make(chan []*DataRecord, 16)
+	PubSummariesChan = make(chan []*DataRecord, 16)
+	ts := NewTriangleSource()
+	vCheck(ts.Configure(&TriangleSourceConfig{Nchan: 1, SampleRate: 10000, Min: 100, Max: 102}) == nil, "Triangle source accepts its configuration")
+	nfail := vRange("failures", 1, 2)
+	ds := &c10FailingSource{TriangleSource: ts, fails: nfail}
+	queued := make(chan func())
+	for i := 0; i < nfail; i++ {
+		vCheck(Start(ds, queued, 3, 4) != nil, "Start reports the failure of its last step")
+		vCheck(ds.GetState() == Inactive, "a failed Start leaves the source inactive")
+		ds.RunDoneWait() // no run is in progress: must not block
+		ds.Stop() // (reports "not active"): must return
+	}
+	for round := 0; round < vParam("rounds", 2); round++ {
+		vCheck(Start(ds, queued, 3, 4) == nil, "a later Start succeeds")
+		vCheck(ds.GetState() == Active, "a started source is active")
+		vCheck(ds.Stop() == nil, "Stop returns")
+		vCheck(ds.GetState() == Inactive, "after Stop the source is inactive")
+		vSettle(50)
+		vCheck(vLiveGoroutines() == 0, "the source's worker goroutines have exited")
+	}
+	vObserve("failures", int64(nfail))
+	vWitness("c10failedstartrun-end")
+}
